@@ -13,12 +13,15 @@ import (
 	"net/http/httptest"
 	"net/url"
 	"sort"
+	"strconv"
 	"strings"
 	"reflect"
 	"sync"
 	"time"
 
+	"github.com/quic-go/quic-go"
 	qhttp3 "github.com/quic-go/quic-go/http3"
+	xhttp2 "golang.org/x/net/http2"
 
 	"github.com/imroc/req/v3/internal/verifh"
 )
@@ -213,6 +216,11 @@ func (o *c17Origin) handler(w http.ResponseWriter, r *http.Request) {
 		w.Write(b)
 		return
 	}
+	if d := r.URL.Query().Get("delay"); d != "" { // an origin that is slow to start reading the upload
+		if ms, e := strconv.Atoi(d); e == nil {
+			time.Sleep(time.Duration(ms) * time.Millisecond)
+		}
+	}
 	body, err := io.ReadAll(r.Body)
 	o.mu.Lock()
 	o.seen = append(o.seen, c17Seen{Method: r.Method, Proto: r.Proto, Header: r.Header.Clone(), CL: r.ContentLength,
@@ -249,6 +257,37 @@ func (o *c17Origin) take() []c17Seen {
 func c17NewOrigin(proto string) *c17Origin {
 	o := &c17Origin{dl: map[string][]byte{}}
 	srv := httptest.NewUnstartedServer(http.HandlerFunc(o.handler))
+	switch {
+	case strings.HasPrefix(proto, "h2win:"):
+		// golang.org/x/net/http2 server advertising a small per-stream (and per-connection)
+		// receive window: SETTINGS_INITIAL_WINDOW_SIZE = n
+		n, _ := strconv.Atoi(strings.TrimPrefix(proto, "h2win:"))
+		conn := n * 4
+		if conn < 65535 {
+			conn = 65535
+		}
+		if err := xhttp2.ConfigureServer(srv.Config, &xhttp2.Server{MaxUploadBufferPerStream: int32(n), MaxUploadBufferPerConnection: int32(conn)}); err != nil {
+			panic(err)
+		}
+		srv.TLS = &tls.Config{NextProtos: []string{"h2"}}
+		srv.StartTLS()
+		o.base, o.stop = srv.URL, srv.Close
+		return o
+	case strings.HasPrefix(proto, "h3win:"):
+		n, _ := strconv.Atoi(strings.TrimPrefix(proto, "h3win:"))
+		srv.StartTLS() // only to borrow its certificate
+		pc, err := net.ListenPacket("udp", "127.0.0.1:0")
+		if err != nil {
+			panic(err)
+		}
+		s3 := &qhttp3.Server{Handler: http.HandlerFunc(o.handler), TLSConfig: qhttp3.ConfigureTLSConfig(&tls.Config{Certificates: srv.TLS.Certificates}),
+			QUICConfig: &quic.Config{InitialStreamReceiveWindow: uint64(n), MaxStreamReceiveWindow: uint64(n),
+				InitialConnectionReceiveWindow: uint64(2 * n), MaxConnectionReceiveWindow: uint64(2 * n)}}
+		go s3.Serve(pc)
+		o.base = "https://" + pc.LocalAddr().String()
+		o.stop = func() { s3.Close(); pc.Close(); srv.Close() }
+		return o
+	}
 	switch proto {
 	case "h2":
 		srv.EnableHTTP2 = true
@@ -274,6 +313,9 @@ func c17NewOrigin(proto string) *c17Origin {
 func c17Client(proto string) *Client {
 	c := C().EnableInsecureSkipVerify()
 	c.SetTimeout(30 * time.Second)
+	if i := strings.IndexByte(proto, 'w'); i == 2 { // h2win:n / h3win:n
+		proto = proto[:2]
+	}
 	switch proto {
 	case "h2":
 		c.EnableForceHTTP2()
